@@ -92,8 +92,13 @@ def run(case):
             if [float(x) for x in df2[df2.columns[0]]] != g2:
                 return "scenario with run specs (%r,%r,%r): time converter reports %r at labels %r" % (start2, g2[-1], dt2, [float(x) for x in df2[df2.columns[0]]][:8], g2[:8])
         b.begin_session(scenarios=["base"], scenario_managers=["sm"], equations=["s"], starttime=start, dt=dt)
-        for _ in range(n + 3):
-            b.run_step()
+        for k in range(n + 3):
+            res = b.run_step()
+            if k <= n:
+                # every step reports exactly one entry, labelled with its own grid value
+                tt = [float(x) for x in res["sm"]["base"]["s"].keys()]
+                if tt != [g[k]]:
+                    return "session step %d reports the times %r, expected [%r]" % (k, tt, g[k])
         keys = [float(k) for k in b.session_results().keys()]
         if keys != g:
             return "session labels %r, expected %r" % (keys[:12], g[:12])
@@ -101,7 +106,7 @@ def run(case):
         b.destroy()
     return None
 
-case = (0.5, 1e-05, 1)
+case = (-1.7, 1.0, 2)
 bad = run_labels(case)
 print("case (start, dt, steps):", case)
 print("FAIL: " + bad if bad else "PASS")
